@@ -221,6 +221,29 @@ def judge(sc):
     return None, None
 
 
+# type definitions built on type definitions: the levels are Real <- V <- HV (<- HHV) <- the declaration; outermost wins
+ALIAS_CASES = [
+    ("type V = Real(max = 9); type HV = V(min = 100); model T HV h(min = 7, nominal = 5); equation h = 2; end T;",
+     {"h": {"min": "7", "max": "9", "nominal": "5"}}),
+    ("type V = Real(max = 9); type HV = V(min = 100); model T HV h; equation h = 2; end T;", {"h": {"min": "100", "max": "9"}}),
+    ("type V = Real(min = 1, max = 9); type HV = V(min = 100); type HHV = HV(max = 50, nominal = 4); model T HHV h(nominal = 6); equation h = 2; end T;",
+     {"h": {"min": "100", "max": "50", "nominal": "6"}}),
+    ("type V = Real(max = 9); type HV = V(min = 100); model A HV h(start = 3); end A; model T A a(h(min = 8)); equation a.h = 2; end T;",
+     {"a.h": {"min": "8", "max": "9", "start": "3"}}),
+]
+
+
+def judge_alias(txt, want):
+    got, _eqs = flatten_text(txt)
+    for name, attrs in want.items():
+        if name not in got:
+            return "flat variables %s" % sorted(got)
+        for a in ATTRS + ["value"]:
+            if got[name].get(a) != attrs.get(a):
+                return "%s.%s is %s, the outermost applicable modification gives %s" % (name, a, got[name].get(a), attrs.get(a))
+    return None
+
+
 def main():
     logging.disable(logging.CRITICAL)
     payload = json.load(sys.stdin)
@@ -228,6 +251,16 @@ def main():
     rng = np.random.RandomState(seed)
     n_cases = 500 if tier == "thorough" else 80
     failures, n, seen, rejected = [], 0, set(), 0
+    for txt, want in ALIAS_CASES:
+        n += 1
+        seen.add(txt)
+        try:
+            bad = judge_alias(txt, want)
+        except BaseException as e:  # noqa
+            bad = "%s: %s" % (type(e).__name__, str(e)[:300])
+        if bad:
+            failures.append({"class": "modifications", "input": {"model": txt, "flatten": "T"}, "observed": bad,
+                             "expected": "every attribute from the outermost applicable modification"})
     for _ in range(n_cases):
         sc = Scenario(rng)
         sc.local = (n % 4 == 3)          # every fourth scenario declares the helper classes as local classes of T
@@ -244,7 +277,7 @@ def main():
                 break
     if payload.get("mode") == "bounded":
         print(json.dumps({"performed": True, "cases": n, "distinct_nontrivial": len(seen), "failures": failures[:10],
-                          "rule": "random scenarios over a fixed 3-level hierarchy (type Volt, model A (extending A0 with a modification) with parameter/variable/alias-typed variable, B containing A, C extending A, T containing B, C, A): "
+                          "rule": "type definitions built on type definitions (two and three levels, with and without modifications on the declaration and on an enclosing component); random scenarios over a fixed 3-level hierarchy (type Volt, model A (extending A0 with a modification) with parameter/variable/alias-typed variable, B containing A, C extending A, T containing B, C, A): "
                                   "0-4 modifications per site (type definition, declarations, B's component, C's extends clause, T's three components) on value/start/min/max/nominal with literal or name "
                                   "expressions (names existing in inner and outer scopes), each scenario written in dotted, nested and alternating spelling, every fourth one with the helper classes declared as local classes of T; compared: every attribute of every flat variable with the "
                                   "reference (outermost wins, scope of writing), equation count, and equality of the spellings (a rejected spelling is allowed); distinct = distinct model texts",
